@@ -21,7 +21,7 @@ pub fn c10_meta(tier: Tier) -> Meta {
     Meta {
         rule: format!(
             "Model-based: a history is a sequence of planning requests (length, direction) applied to ONE planner; the model says every returned transform must be a correct DFT of its own length and direction whatever came before. \
-             Bounded-exhaustive: for each of {targets}+ target lengths up to {tmax} (highly composite 11-smooth lengths, p*2^k with Rader/Bluestein primes, a few fixed ones) a pool of <= 8 RELATED requests is derived from the target's own fresh plan via the plan-report hook (every stage of its AVX radix chain / every sub-recipe of its scalar or SSE recipe, Rader/Bluestein inner lengths, multiples of the target, and two opposite-direction requests), and ALL sequences of length <= 3 over the pool are run on the Scalar, Sse and Avx planners, f32 and f64. \
+             Bounded-exhaustive: for each of {targets}+ target lengths up to {tmax} (highly composite 11-smooth lengths, p*2^k with Rader/Bluestein primes, a few fixed ones) a pool of <= 8 RELATED requests is derived from the target's own fresh plan via the plan-report hook (every stage of its AVX radix chain / every sub-recipe of its scalar or SSE recipe, Rader/Bluestein inner lengths, multiples of the target, and two opposite-direction requests), and ALL sequences of length <= 3 over the pool (quick tier: all of length <= 2 and a fixed third of those of length 3) are run on the Scalar, Sse and Avx planners, f32 and f64. \
              Pairs: every (M, p) with p prime <= 400 (quick) / 2048 (thorough) and M = 2^a*3^b in [p,12p]: the history [M, p, p'] (a cached M is a candidate Bluestein inner length when M >= 2p-1, and must NOT be taken for one when it is shorter). \
              Neighbour histories: [p-1, p], [(p-1)/2, p-1, p], [p, 2p, 2p+1], [p-1, p, 2p] for every prime p in 37..=600 (quick) / 4000 (thorough). \
              Plan lifetime: histories in which the caller DROPS every returned transform before the next request (repeats, both directions, halves/doubles/quadruples of landmark sizes from 1000 up to 5*2^18 and 2^20 (quick) / 2^23 (thorough), and a third as many random histories), each transform judged against the analytic DFT column of a unit impulse (and a dense vector up to 2^16). \
@@ -31,7 +31,7 @@ pub fn c10_meta(tier: Tier) -> Meta {
              Non-trivial: the history contains a request that the planner splices onto something an earlier request built (AVX: plan shows CacheBase(b), b < n; scalar/SSE: a sub-recipe length built earlier in that direction), as reported by the plan-report hook just before the request.",
         ),
         exhaustive: true,
-        exhaustive_note: "all sequences of length <= 3 over each derived pool are enumerated; longer histories are sampled".into(),
+        exhaustive_note: "thorough: all sequences of length <= 3 over each derived pool are enumerated (quick: all of length <= 2 and a third of length 3); longer histories are sampled".into(),
         assumptions: vec!["the plan-report hook is used only to derive pools and to label cache interaction; verdicts come from the transforms' behaviour".into()],
     }
 }
@@ -132,6 +132,10 @@ pub fn c10_worker(ctx: &mut Ctx) {
                     for b in 0..k {
                         seqs.push(vec![pool[a], pool[b]]);
                         for c in 0..k {
+                            // quick tier: every sequence of length <= 2 and a fixed third of the length-3 ones
+                            if ctx.tier == Tier::Quick && (a + b + c + ti) % 3 != 0 {
+                                continue;
+                            }
                             seqs.push(vec![pool[a], pool[b], pool[c]]);
                         }
                     }
